@@ -478,7 +478,125 @@ spectra_batch = Contract(
     callees={spectra_point.target: _PointCallee()},
 )
 
-CONTRACTS = [newton, iteration_function, active_region, bulk_rate_point, bulk_dissipation_direction, spectra_point, spectra_batch]
+
+# ------------------------------------------------------------------------------------------------ public wrappers
+from pyvc.values import Obj as _Obj, LibFunc as _LibFunc
+from pyvc.models import xr as _xr          # registers the xarray library model
+from contracts.C08 import NUMBA_PARAMS, record as _record
+
+
+def _spectrum_stub(mk, name, npnt, nf, nd):
+    shape = (npnt, nf, nd)
+    f = {"variance_density": mk.array(name + "_E", shape), "depth": mk.array(name + "_depth", (npnt,)),
+         "radian_frequency": mk.array(name + "_omega", (nf,)), "radian_direction": mk.array(name + "_theta", (nd,)),
+         "frequency_step": mk.array(name + "_df", (nf,)), "direction_step": mk.array(name + "_dtheta", (nd,)),
+         "number_of_spectra": npnt, "shape": _LibFunc("spectrum.shape", lambda i, s, a, k, shape=shape: shape),
+         "dims_space_time": ("time",), "coords_space_time": mk.st.alloc({"time": mk.array(name + "_time", (npnt,))}, "coords")}
+    return mk.st.alloc(_Obj("SpectrumStub", f), name)
+
+
+def _batch_result(mk, a):
+    npnt = mk.st.deref(a.variance_density).shape[0]
+    r = (mk.array("speed", (npnt,)), mk.array("direction", (npnt,)))
+    mk.st.ghost["batch_call"] = (a, r)
+    return r
+
+
+BATCH_AT_CALL = CalleeContract(spectra_batch.target, _batch_result, note="proved above (_u10_from_spectra): one (speed, direction) per member")
+
+
+def _p_wrapper(with_rate, direction_iteration):
+    def p(mk):
+        npnt, nf, nd = mk.size("np"), mk.size("nf"), mk.size("nd")
+        spec = _spectrum_stub(mk, "spectrum", npnt, nf, nd)
+        pg, pd = _record(mk, "generation_parameters", ["g_a", "g_b"]), _record(mk, "dissipation_parameters", ["d_a"])
+        gen = mk.instance(B + "generation.py::WindGeneration", {"_parameters": pg, "_wind_source_term_function": _Opaque("wind_source_term_function"),
+                                                                  "_tail_stress_parametrization_function": _Opaque("tail"), "name": "generation"})
+        dis = mk.instance(B + "dissipation.py::Dissipation", {"_parameters": pd, "_dissipation_function": _Opaque("dissipation_function"), "name": "dissipation"})
+        bal = mk.instance(B + "balance.py::SourceTermBalance", {"generation": gen, "dissipation": dis})
+        rate = _spectrum_stub(mk, "rate_of_change", npnt, nf, nd) if with_rate else None
+        return {"balance": bal, "guess_u10": mk.array("guess", (npnt,)), "spectrum": spec, "jacobian": False, "jacobian_parameters": None,
+                "time_derivative_spectrum": rate, "direction_iteration": direction_iteration}
+    return p
+
+
+def _fields(a, v):
+    return a._snap.deref(v).fields
+
+
+def _wrapper_post(a, r):
+    ca, (speed, direction) = a._ghost["batch_call"]
+    st = a._snap
+    sp = _fields(a, a._raw["spectrum"])
+    bal = _fields(a, a._raw["balance"])
+    gen, dis = _fields(a, bal["generation"]), _fields(a, bal["dissipation"])
+    grid = st.deref(ca.spectral_grid)
+    pgen, pdis = st.deref(ca.parameters_generation), st.deref(ca.parameters_dissipation)
+    E = st.deref(ca.variance_density)
+    cl = [_same(ca.variance_density, sp["variance_density"]), _same(ca.guess_u10, a._raw["guess_u10"]), _same(ca.depth, sp["depth"]),
+          _same(ca.wind_source_term_function, gen["_wind_source_term_function"]),
+          _same(ca.tail_stress_parametrization_function, gen["_tail_stress_parametrization_function"]),
+          _same(ca.dissipation_source_term_function, dis["_dissipation_function"]),
+          isinstance(grid, dict) and all(_same(grid[k], sp[k]) for k in ("radian_frequency", "radian_direction", "frequency_step", "direction_step")),
+          isinstance(pgen, dict) and set(pgen) == set(st.deref(gen["_parameters"])) and And(*[eq(pgen[k], st.deref(gen["_parameters"])[k]) for k in pgen]),
+          isinstance(pdis, dict) and set(pdis) == set(st.deref(dis["_parameters"])) and And(*[eq(pdis[k], st.deref(dis["_parameters"])[k]) for k in pdis]),
+          ca.direction_iteration is a.direction_iteration]
+    dE = st.deref(ca.time_derivative_spectrum)
+    npnt, nf, nd = E.shape
+    if a._raw["time_derivative_spectrum"] is None:
+        cl.append(forall(0, npnt, lambda p: forall2((0, nf), (0, nd), lambda i, j: eq(dE.get((_T.to_z3(p), _T.to_z3(i), _T.to_z3(j))), 0)), "p"))
+    else:
+        cl.append(_same(ca.time_derivative_spectrum, _fields(a, a._raw["time_derivative_spectrum"])["variance_density"]))
+    u, d = r.vars["u10"].arr, r.vars["direction"].arr
+    cl.append(forall(0, npnt, lambda p: And(eq(u[p], st.deref(speed).get((_T.to_z3(p),))), eq(d[p], st.deref(direction).get((_T.to_z3(p),)))), "p"))
+    return And(*cl)
+
+
+WRAP_INST = [("no_rate_of_change", _p_wrapper(False, False)), ("rate_of_change,direction_iteration", _p_wrapper(True, True))]
+wrapper = Contract(
+    WI + "windspeed_and_direction_from_spectra", instances=WRAP_INST,
+    requires=[("dims", lambda a: And(*[n >= 0 for n in a.spectrum.variance_density.shape]))],
+    ensures=[("batch_solver_gets_this_spectrum_guess_depth_balance_functions_parameters_grid_and_rate_of_change_and_its_result_is_returned", _wrapper_post)],
+    callees={spectra_batch.target: BATCH_AT_CALL, NUMBA_PARAMS.target: NUMBA_PARAMS},
+)
+
+
+
+def _guess_result(mk, a):
+    g = _Opaque("peak_equilibrium_u10")
+    mk.st.ghost["guess_call"] = (a, g)
+    return mk.st.alloc({"u10": g, "direction": _Opaque("peak_equilibrium_direction")}, "dataset")
+
+
+def _wrapper_result(mk, a):
+    out = _Opaque("inversion_result")
+    mk.st.ghost["wrapper_call"] = (a, out)
+    return out
+
+
+GUESS_AT_CALL = CalleeContract("wavephysics/windestimate.py::estimate_u10_from_spectrum", _guess_result,
+                               note="C12 (equilibrium-range estimate); here only which call produces the first guess")
+WRAPPER_AT_CALL = CalleeContract(wrapper.target, _wrapper_result, note="proved above (windspeed_and_direction_from_spectra)")
+
+
+def _entry_post(a, r):
+    ga, g = a._ghost["guess_call"]
+    wa, out = a._ghost["wrapper_call"]
+    return And(r is out, _same(ga.spectrum, a._raw["spectrum"]), ga.method == "peak", ga.direction_convention == "going_to_counter_clockwise_east",
+               wa.guess_u10 is g, _same(wa.balance, a._raw["balance"]), _same(wa.spectrum, a._raw["spectrum"]),
+               wa.time_derivative_spectrum is a._raw["time_derivative_spectrum"] or _same(wa.time_derivative_spectrum, a._raw["time_derivative_spectrum"]),
+               wa.direction_iteration is a._raw["direction_iteration"], wa.jacobian is False)
+
+
+entry = Contract(
+    "wavephysics/windestimate.py::estimate_u10_from_source_terms",
+    params=lambda mk: {"spectrum": _Opaque("spectrum"), "balance": _Opaque("balance"), "time_derivative_spectrum": _Opaque("rate_of_change"),
+                       "direction_iteration": mk.bool("direction_iteration"), "kwargs": {}},
+    ensures=[("first_guess_is_the_peak_equilibrium_estimate_and_everything_else_is_forwarded", _entry_post)],
+    callees={GUESS_AT_CALL.target: GUESS_AT_CALL, wrapper.target: WRAPPER_AT_CALL},
+)
+
+CONTRACTS = [newton, iteration_function, active_region, bulk_rate_point, bulk_dissipation_direction, spectra_point, spectra_batch, wrapper, entry]
 BOUNDED = [Bounded("inversion_closes_balance.compiled", bounded_inversion)]
 TRUSTED = ["floats as reals: a division by zero yields an unspecified real (numba raises ZeroDivisionError, which the caller's bare except also turns into NaN)",
            "numba compiles the functions faithfully (the bounded stand-in runs the compiled code; it is what exposed the keyword-argument defect fixed in /repo)"]
